@@ -63,6 +63,38 @@ example : prKeys 7 4 1 = [4, 5, 6] ∧ (1 : Nat) < prOutBlocks 7 4 := by decide
 theorem C17_reduction_split_ge_two (root : Nat) : 2 ≤ normSplitInt root := by
   unfold normSplitInt; omega
 
+/-- … and (after fix 6c5075b) a dict `split_every` that `validateReduce` accepts has group sizes of at least 2 for
+every reduced axis, so the hypothesis `1 ≤ k` of `C17_accepted_total_partial_reduce` holds for every accepted request. -/
+theorem C17_reduction_dict_split_ge_two (ndim : Nat) (axes : Option (List Int)) (vals : List (Nat × Nat))
+    (hv : validateReduce ndim axes (.dict vals) = .ok ()) : ∀ q ∈ vals, 2 ≤ q.2 := by
+  intro q hq
+  unfold validateReduce at hv
+  simp only at hv
+  split at hv
+  · cases hv
+  · split at hv
+    · rename_i hany
+      cases hv
+    · rename_i hany
+      have : ¬ (vals.any (fun q => decide (q.2 < 2)) = true) := hany
+      simp only [List.any_eq_true, decide_eq_true_eq, not_exists, not_and] at this
+      have := this q hq
+      omega
+
+example : validateReduce 2 (some [0]) (.dict [(0, 3)]) = .ok () := by rfl
+
+/-- OLD variant (before the fix), full statement: an accepted dict `split_every` has usable (≥ 1) group sizes. -/
+def C17_reduction_split_total_old : Prop :=
+  ∀ (ndim : Nat) (axes : Option (List Int)) (vals : List (Nat × Nat)),
+    validateReduceOld ndim axes (.dict vals) = .ok () → ∀ q ∈ vals, 1 ≤ q.2
+
+/-- OLD variant failed: `split_every={0: 0}` was accepted and `math.ceil(len(c) / 0)` raised ZeroDivisionError while
+building. -/
+theorem C17_reduction_split_total_old_fails : ¬ C17_reduction_split_total_old := by
+  intro h
+  have := h 2 (some [0]) [(0, 0)] (by rfl) (0, 0) (by simp)
+  omega
+
 /-- merge_chunks: out block `bi` of the target grid reads the (non-empty set of) input blocks met by
 `[bi*T, min((bi+1)*T, n))`, all of which exist. -/
 theorem C17_accepted_total_merge (n c0 T bi : Nat) (hc0 : 0 < c0) (hT : 0 < T) (hn : 0 < n)
